@@ -71,6 +71,20 @@ def _rec_op(h, rel, arm_body, what):
     raise h.Missing(f"{rel}: {what}: cannot classify the storage operation of an arm")
 
 
+def _check_conditions(h, rel, what, arms, flag_pat):
+    """every condition of every arm is a trust-level test or the arm's one known flag (sys.Corrupted name /
+    isReapply): the tables have no other input, so anything else (the event's offsets, its size, ...) means
+    the model no longer describes the decision - a hard error"""
+    level = r"(e|recs)\.app\.seqTrustLevel\s*==\s*isequencer\.SequencesTrustLevel_\d"
+    for lab, _ in arms:
+        if lab.startswith("default"):
+            continue
+        for cond in lab[len("case"):].rstrip().rstrip(":").split(","):
+            c = cond.strip()
+            if not (re.fullmatch(level, c) or re.fullmatch(flag_pat, c)):
+                raise h.Missing(f"{rel}: {what}: switch arm depends on `{c}` - not a trust level or the known flag")
+
+
 def _table(arms, classify, flag_pat, flag):
     """operation code per trust level 0..2 when the arm-selecting flag (corrupted / isReapply) has the given value"""
     out = []
@@ -157,11 +171,13 @@ def collect(h):
                           ("PutWlog", "wlog", r"ev\.QName\(\)\s*==\s*istructs\.QNameForCorruptedData")):
         body = h.func_body(rel, r"^func \(e \*appEventsType\) %s\(" % fn, fn)
         arms = _switch_arms(h, rel, body, fn)
+        _check_conditions(h, rel, fn, arms, corr)
         cl = lambda b, fn=fn: _log_op(h, rel, b, fn)  # noqa: E731
         items.append((f"c05_{key}_ops", "list N", _table(arms, cl, corr, False), f"{rel} {fn}: switch arms, ordinary events"))
         items.append((f"c05_{key}_corrupted_ops", "list N", _table(arms, cl, corr, True), f"{rel} {fn}: switch arms, sys.Corrupted events"))
     body = h.func_body(rel, r"^func \(recs \*appRecordsType\) putRecordsBatch\(", "putRecordsBatch")
     arms = _switch_arms(h, rel, body, "putRecordsBatch")
+    _check_conditions(h, rel, "putRecordsBatch", arms, r"\bisReapply\b")
     cl = lambda b: _rec_op(h, rel, b, "putRecordsBatch")  # noqa: E731
     items.append(("c05_rec_ops", "list N", _table(arms, cl, r"\bisReapply\b", False), f"{rel} putRecordsBatch: switch arms, Apply"))
     items.append(("c05_rec_reapply_ops", "list N", _table(arms, cl, r"\bisReapply\b", True), f"{rel} putRecordsBatch: switch arms, re-apply"))
@@ -179,8 +195,23 @@ def collect(h):
            "cudType.Create sets rec.isNew = true unconditionally")
     h.find("pkg/istructsmem/event-dynobuf.go", r"for ; count > 0; count-- \{\s*rec := newRecord\(ev\.cud\.appCfg\)\s*rec\.isNew = true\s*if err := loadEventCUD\(rec,",
            "loadEventCUDs sets rec.isNew = true unconditionally for created rows")
-    if len(re.findall(r"\.isNew\s*=[^=]", h.src("pkg/istructsmem/event-types.go") + h.src("pkg/istructsmem/event-dynobuf.go") + h.src(rel))) != 2:
-        raise h.Missing("pkg/istructsmem: rec.isNew is assigned somewhere else than ICUD.Create and loadEventCUDs")
+    # ICUD.Update(record): newUpdateRec copies the given record object, including its isNew flag
+    # (recordType.copyFrom), into the origin and from there into the result row that is stored.  A record
+    # object handed out for a created row (Apply2 callback) has isNew == true, so its update is stored through
+    # the insert path.  true = the flag is inherited (the code as found); false = newUpdateRec resets it.
+    et = "pkg/istructsmem/event-types.go"
+    nur = h.func_body(et, r"^func newUpdateRec\(", "newUpdateRec")
+    if not re.search(r"upd\.originRec\.copyFrom\(rec\.\(\*recordType\)\)", nur) or not re.search(r"upd\.result\.copyFrom\(&upd\.originRec\)", nur):
+        raise h.Missing(f"{et}: newUpdateRec: origin/result are not copies of the given record")
+    copies = re.search(r"func \(rec \*recordType\) copyFrom\(src \*recordType\) \{[^}]*rec\.isNew = src\.isNew", h.src("pkg/istructsmem/tables-types.go")) is not None
+    resets = len(re.findall(r"upd\.originRec\.isNew\s*=\s*false", nur))
+    if resets > 1 or (resets == 1 and not re.search(r"copyFrom\(rec\.\(\*recordType\)\)\s*(//[^\n]*\n\s*)*upd\.originRec\.isNew\s*=\s*false", nur)):
+        raise h.Missing(f"{et}: newUpdateRec: cannot interpret how isNew of the origin is set")
+    items.append(("c05_update_inherits_isnew", "bool", "true" if (copies and resets == 0) else "false",
+                  f"{et} newUpdateRec / tables-types.go copyFrom: the update row inherits isNew of the record object given to ICUD.Update"))
+    n_assign = len(re.findall(r"\.isNew\s*=[^=]", h.src(et) + h.src("pkg/istructsmem/event-dynobuf.go") + h.src(rel)))
+    if n_assign != 2 + resets:
+        raise h.Missing("pkg/istructsmem: rec.isNew is assigned somewhere else than ICUD.Create, loadEventCUDs (and the reset in newUpdateRec)")
     # time-to-live handed to InsertIfNotExists by the three writers (0 = rows never expire)
     ttls = set(re.findall(r"storage\.InsertIfNotExists\(pKey, cCols, [\w.]+, (\d+)\)", h.src(rel)))
     if len(ttls) != 1:
